@@ -1031,6 +1031,30 @@ func r2(w *World, r *Report) {
 			}
 		}
 		r.Check(ok, "R-2", "NewGovCtrler:params", "the constructor loads the governance parameters committed in the params ledger", "the governance controller does not start from the committed parameters", fnSite(w, ng))
+		// ... and installs them as they are: a running node holds what Commit installed
+		// (zero means zero), so a constructor that completes, defaults or otherwise edits
+		// the loaded record starts a restarted node with other parameters
+		edited := ""
+		for _, c := range CallsIn(ng) {
+			cal := c.Common().StaticCallee()
+			if cal == nil || !w.InModule(cal) || cal.Blocks == nil || len(cal.Params) != len(c.Common().Args) {
+				continue
+			}
+			for ai, a := range c.Common().Args {
+				if !strings.Contains(w.CanonDeep(a), ".Get("+w.govParamsKeyCanon()+")#0") {
+					continue
+				}
+				// the callee (or what it calls, one level) writes through that parameter
+				for _, hf := range w.withModuleCallees(cal, 1) {
+					for _, fs := range w.fieldStores(hf) {
+						if fa, isFA := fs.Addr.(*ssa.FieldAddr); isFA && hf == cal && stripConv(fa.X) == ssa.Value(cal.Params[ai]) {
+							edited = w.FName(cal) + " writes " + fs.Field.Name() + " of the loaded record (" + site(w, c) + ")"
+						}
+					}
+				}
+			}
+		}
+		r.Check(edited == "", "R-2", "NewGovCtrler:params-as-committed", "the loaded record is installed unchanged", "the loaded parameters are edited before they are installed: "+edited, fnSite(w, ng))
 	}
 	if af := w.applyFlow(); af.fn == nil {
 		r.Undecided("R-2", "applyProposals", "applyProposals callback not found")
@@ -1281,7 +1305,7 @@ func ownFrameKind(w *World, v ssa.Value) (string, string) {
 }
 
 func checkC08(w *World, r *Report) {
-	r.Explanation = "Structural clause of C08: (K-1) the durable writes reachable from RigoApp.Commit are enumerated in execution order; the record that Info reads back (PutLastBlockContext) is written after all four controllers' commits and after the version-equality test, and nothing but the legacy height record follows it — so a crash before it leaves Info reporting the previous block; (K-2) divergence is detected: the version-equality tests in the application, governance and stake commits panic / fail before the meta record is written, RigoApp.BeginBlock and EVMCtrler.BeginBlock test height continuity before any effect, and Info reports what the meta store holds; (K-3) some function on the start-up path must bring every store back to the persisted height (version rollback / overwrite, or a comparison of store versions with the meta height) — absent on this tree, recorded as one known finding per gap between consecutive durable writes of a commit; (K-4) what Commit writes is what a restarted node reads: the last-block record is written and read as one type whose MarshalJSON/UnmarshalJSON use identical wire structs and map every wire field from/to the same record field, every encoding/json decode target in the state packages is decodable by encoding/json (no non-empty interface / chan / func component outside a type with its own unmarshaller), and Info reports the record's height and app hash; (K-5) the crash point just after a commit is a restart at a block boundary: every controller field written during block execution is block-scoped, rebuilt from durable state at start-up or handed over, and every record start-up reads is written by every commit with the value kept in memory (C07 R-1, R-2); what only the overlay cache holds is lost by the crash, so an item changed in place is marked and tested nil-ness survives the store (C07 R-3, R-4)."
+	r.Explanation = "Structural clause of C08: (K-1) the durable writes reachable from RigoApp.Commit are enumerated in execution order; the record that Info reads back (PutLastBlockContext) is written after all four controllers' commits and after the version-equality test, and nothing but the legacy height record follows it — so a crash before it leaves Info reporting the previous block; (K-2) divergence is detected: the version-equality tests in the application, governance and stake commits panic / fail before the meta record is written, RigoApp.BeginBlock and EVMCtrler.BeginBlock test height continuity before any effect, and Info reports what the meta store holds; (K-3) some function on the start-up path must bring every store back to the persisted height (version rollback / overwrite, or a comparison of store versions with the meta height) — absent on this tree, recorded as one known finding per gap between consecutive durable writes of a commit; (K-4) what Commit writes is what a restarted node reads: the last-block record is written and read as one type whose MarshalJSON/UnmarshalJSON use identical wire structs and map every wire field from/to the same record field, every encoding/json decode target in the state packages is decodable by encoding/json (no non-empty interface / chan / func component outside a type with its own unmarshaller), and Info reports the record's height and app hash; (K-6) every return of InitChain has initialised the three ledgers, whatever the meta store already holds: the chain-id record is durable at once, the genesis state only with the first Commit, and a node killed in between is sent InitChain again; (K-5) the crash point just after a commit is a restart at a block boundary: every controller field written during block execution is block-scoped, rebuilt from durable state at start-up or handed over, and every record start-up reads is written by every commit with the value kept in memory (C07 R-1, R-2); what only the overlay cache holds is lost by the crash, so an item changed in place is marked and tested nil-ness survives the store (C07 R-3, R-4)."
 	r.NotCovered = "that a replay after realignment reproduces the hashes; torn writes inside one store (LevelDB / iavl); unchecked write errors of the meta store (errcheck cross-reference)."
 	cm := needFn(r, "K-1", w, fref{"node", "RigoApp", "Commit"})
 	if cm == nil {
@@ -1450,6 +1474,53 @@ func checkC08(w *World, r *Report) {
 			}
 		}
 		r.Check(linked, "K-2", refStr(ct.ref)+":version-equality", "unequal ledger versions fail the commit", refStr(ct.ref)+" no longer compares the versions of its ledgers", fnSite(w, fn))
+	}
+	// K-6: the genesis state is durable only with the first Commit, while InitChain's
+	// chain-id record is written at once. A node killed in between reports height 0
+	// and is sent InitChain again: the replay reproduces block 1 only if InitChain
+	// initialises the three ledgers whatever the meta store already holds — every
+	// return of InitChain has passed the three InitLedger calls.
+	if ic := needFn(r, "K-6", w, fref{"node", "RigoApp", "InitChain"}); ic != nil {
+		ev := func(in ssa.Instruction) string {
+			c, ok := in.(ssa.CallInstruction)
+			if !ok || callName(c.Common()) != "InitLedger" {
+				return ""
+			}
+			rcv, _ := callRecvArgs(c.Common())
+			if c.Common().IsInvoke() {
+				rcv = c.Common().Value
+			}
+			if rcv == nil {
+				return ""
+			}
+			return w.Canon(rcv)
+		}
+		saved := w.branchMarkers
+		w.branchMarkers = false
+		w.enumDepth = 3
+		ps, complete := w.enumPaths(ic, func(ssa.Value) (bool, bool) { return false, false }, ev, 4000)
+		w.enumDepth = 0
+		w.branchMarkers = saved
+		bad, nRet := "", 0
+		if !complete {
+			bad = "path enumeration incomplete"
+		}
+		for _, p := range ps {
+			if p.Term == "panic" || p.Term == "loop" {
+				continue
+			}
+			nRet++
+			got := map[string]int{}
+			for _, e := range p.Events {
+				got[e]++
+			}
+			for _, want := range []string{"recv.govCtrler", "recv.acctCtrler", "recv.stakeCtrler"} {
+				if got[want] != 1 {
+					bad = fmt.Sprintf("a return of InitChain has passed %s.InitLedger %d time(s)", want, got[want])
+				}
+			}
+		}
+		r.Check(bad == "" && nRet > 0, "K-6", "InitChain:initialises-unconditionally", "every return of InitChain has initialised the governance, account and stake ledgers exactly once", "InitChain can return without initialising a ledger (a node killed before the first Commit is sent InitChain again and must rebuild the genesis state): "+bad, fnSite(w, ic))
 	}
 	bb := needFn(r, "K-2", w, fref{"node", "RigoApp", "BeginBlock"})
 	if bb != nil {
@@ -1626,6 +1697,15 @@ func checkC10(w *World, r *Report) {
 		if n < 2 {
 			r.Undecided("U-6", "overlay-writes", "fewer than 2 writes to the delegatee ledger's overlay found in consensus context")
 		}
+	}
+	// U-8: the candidate list is rebuilt by decoding every committed delegatee record;
+	// one record that its own decoder cannot read stops the scan (the error is not
+	// fatal to the block) and cuts the list. The record is written and read by one
+	// and the same JSON library: encoders of different libraries agree on most
+	// values and differ on some (untagged int64 lists)
+	for _, tn := range []string{"Delegatee", "Stake"} {
+		enc, dec := w.codecLibOf(pkgStake, tn, "Encode", "Marshal"), w.codecLibOf(pkgStake, tn, "Decode", "Unmarshal")
+		r.Check(enc != "" && enc == dec, "U-8", "codec-pair:"+tn, "written and read by the same library ("+enc+")", fmt.Sprintf("%s records are written with %q and read with %q: a value the two treat differently makes the committed record unreadable", tn, enc, dec), "ctrlers/stake")
 	}
 	// U-7: "rebuilt from the committed delegatee tree" holds only if the tree's
 	// iterator reads the tree alone: an iterator that also consults an overlay (the
@@ -2224,4 +2304,28 @@ func (w *World) endBlockCalls() map[string]int {
 		}
 	}
 	return out
+}
+
+// codecLibOf: the package of the (un)marshalling function the item's codec method
+// reaches (through helpers of the package, two levels); "" if none or several.
+func (w *World) codecLibOf(pkgRel, typ, method, fname string) string {
+	m := w.Method(pkgRel, typ, method)
+	if m == nil {
+		return ""
+	}
+	libs := map[string]bool{}
+	for _, hf := range w.withModuleCallees(m, 2) {
+		for _, c := range CallsIn(hf) {
+			if cal := c.Common().StaticCallee(); cal != nil && !w.InModule(cal) && cal.Name() == fname && cal.Pkg != nil {
+				libs[cal.Pkg.Pkg.Path()] = true
+			}
+		}
+	}
+	if len(libs) != 1 {
+		return ""
+	}
+	for k := range libs {
+		return k
+	}
+	return ""
 }
